@@ -33,7 +33,7 @@ class _InertPtr(object):
 
 edge_smtp.PtrLookup = _InertPtr       # no DNS in the sandbox (harness-side seam)
 
-VERDICT_RE = re.compile(r'v(421|450|550|451|554)')
+VERDICT_RE = re.compile(r'v(421|450|550|451|554|251)')
 DATA_VERDICT_RE = re.compile(r'd(421|450|550)')
 CONTENT_VERDICT_RE = re.compile(br'X-Verdict: (421|450|550)')
 
@@ -358,6 +358,7 @@ ALPHABET = [
     Item('RCPT', b'RCPT TO:<v450@y.org>', label='RCPT/450'),
     Item('RCPT', b'RCPT TO:<v550@y.org>', label='RCPT/550'),
     Item('RCPT', b'RCPT TO:<v421@y.org>', label='RCPT/421'),
+    Item('RCPT', b'RCPT TO:<v251@y.org>', label='RCPT/251'),        # "user not local; will forward": a positive reply
     Item('RCPT', b'RCPT TO:<r-d550@y.org>', label='RCPT-then-DATA/550'),
     Item('RCPT', b'RCPT FROM:<r@y.org>', label='RCPT-from'),
     Item('RCPT', b'RCPT TO:r@y.org', label='RCPT-noangle'),
@@ -517,7 +518,7 @@ class Model(object):
             v = verdict_of(addr)
             exp['cbs'] = [('RCPT', (addr,))]
             exp['replies'] = [v or '250']
-            if not v:
+            if not v or v[0] == '2':
                 self.rcpt = True
                 self.rcpts.append(addr)
                 dm = DATA_VERDICT_RE.search(addr)
